@@ -70,7 +70,18 @@ class IndexApi:
             if name == 'eq':
                 pairs = [(PYKEYS[k], vm.to_py(v)) for k, v in a['other']]
                 other = collections.OrderedDict(pairs) if a['ordered'] else dict(pairs)
-                r = (x == other)
+                tmpdir = None
+                if a['ordered'] == 2 and hasattr(x, 'cache'):
+                    # against another Index (its own directory) holding the same pairs in that order
+                    import tempfile, diskcache
+                    tmpdir = tempfile.mkdtemp(prefix='eq-', dir=envctl.scratch_root())
+                    other = diskcache.Index(tmpdir, pairs)
+                try:
+                    r = (x == other)
+                finally:
+                    if tmpdir is not None:
+                        other.cache.close()
+                        envctl.rm(tmpdir)
                 return R('true' if r is True else 'false' if r is False else 'weird')
         except KeyError:
             return R('KeyError')
@@ -241,7 +252,7 @@ def random_ops(rng, n, vals=None, lifecycle=True):
         elif r < 0.86:
             o = {'op': 'view', 'a': {'what': rng.choice(['keys', 'values', 'items']), 'rev': rng.randrange(2)}}
         elif r < 0.93:
-            o = {'op': 'eq', 'a': {'other': 'CURRENT', 'ordered': rng.randrange(2), 'shuffle': rng.randrange(2), 'mutate': rng.random() < 0.3}}
+            o = {'op': 'eq', 'a': {'other': 'CURRENT', 'ordered': rng.choice([0, 1, 2]), 'shuffle': rng.randrange(2), 'mutate': rng.random() < 0.3}}
         elif r < 0.95:
             o = {'op': 'clear', 'a': {}}
         elif lifecycle:
